@@ -743,3 +743,78 @@ def gen_loops():
 if __name__ == '__main__':
     t, d = gen_loops()
     print(t['WalksDefs'])
+
+
+# ------------------------------------------------------------------ GP._reproduction
+def read_repro(fn):
+    b = lambda v: 'true' if v else 'false'
+    F = dict(fitnessFromAgents=False, countIsTreesTimesP=False, selectionIsTournament=False, worstIsArgmax=False,
+             treeCopy='.other', treeFromSelected=False, agentCopy='.other', agentFromSelected=False, marker='none', extraStmts=0)
+    if fn is None:
+        F['extraStmts'] = 1
+    else:
+        stmts = [s for s in body_of(fn) if not (isinstance(s, ast.Expr) and isinstance(s.value, ast.Call) and ast.unparse(s.value.func).startswith('logger.'))]
+        loop = None
+        for st in stmts:
+            u = ' '.join(ast.unparse(st).split())
+            if u == 'fitness = [agent.fit for agent in space.agents]':
+                F['fitnessFromAgents'] = True
+            elif u == 'n_individuals = int(space.n_trees * self.p_reproduction)':
+                F['countIsTreesTimesP'] = True
+            elif u == 'selected = g.tournament_selection(fitness, n_individuals)':
+                F['selectionIsTournament'] = True
+            elif isinstance(st, ast.For) and ast.unparse(st.iter) == 'selected' and isinstance(st.target, ast.Name) and loop is None and not st.orelse:
+                loop = st
+            else:
+                F['extraStmts'] += 1
+        if loop is None:
+            F['extraStmts'] += 1
+        else:
+            s_ = loop.target.id
+            for st in body_of(loop):
+                u = ' '.join(ast.unparse(st).split())
+                if u == 'worst = np.argmax(fitness)':
+                    F['worstIsArgmax'] = True
+                    continue
+                if isinstance(st, ast.Assign) and len(st.targets) == 1:
+                    t = ast.unparse(st.targets[0])
+                    cp, inner = _is_copy(st.value)
+                    deep = isinstance(st.value, ast.Call) and ast.unparse(st.value.func) == 'copy.deepcopy'
+                    if t == 'space.trees[worst]':
+                        F['treeCopy'] = '.deep' if deep else '.other'
+                        F['treeFromSelected'] = inner == f'space.trees[{s_}]'
+                        continue
+                    if t == 'space.agents[worst]':
+                        F['agentCopy'] = '.deep' if deep else '.other'
+                        F['agentFromSelected'] = inner == f'space.agents[{s_}]'
+                        continue
+                    if t == 'fitness[worst]' and isinstance(st.value, ast.Constant) and isinstance(st.value.value, (int, float)) \
+                            and not isinstance(st.value.value, bool):
+                        k = fkey(st.value.value)
+                        F['marker'] = f'(some {k})' if k >= 0 else f'(some ({k}))'
+                        continue
+                F['extraStmts'] += 1
+    return ('{ ' + ', '.join(f'{k} := {b(v) if isinstance(v, bool) else v}' for k, v in F.items()) + ' }')
+
+
+_old_gen_loops6 = gen_loops
+
+
+def gen_loops():
+    texts, data = _old_gen_loops6()
+    rp = read_repro(find_method(f'{REPO}/opytimizer/optimizers/gp.py', 'GP', '_reproduction'))
+    texts['ReproDefs'] = '\n'.join(['-- GENERATED by harness/translate_loops.py from GP._reproduction. Do not edit.',
+                                    'import OpyVerif.Model.ReproProg', 'namespace Opy.Gen', 'open Opy', '',
+                                    f'def reproLoop : ReproLoop := {rp}', '', 'end Opy.Gen', ''])
+    texts['Repro'] = '\n'.join(['-- GENERATED by harness/translate_loops.py: obligations re-decided on every build. Do not edit.',
+                                'import OpyVerif.Generated.ReproDefs', 'namespace Opy.Gen', 'open Opy',
+                                '/-- `GP._reproduction` reads as the loop `Proofs/ReproProg.reproLoop_is_reproduction` proves to be `PNode.reproduction` -/',
+                                'theorem reproLoop_eq : reproLoop = Expected.reproLoop := by decide +kernel',
+                                'end Opy.Gen', ''])
+    data['repro'] = rp
+    return texts, data
+
+
+if __name__ == '__main__':
+    t, d = gen_loops()
+    print(t['ReproDefs'])
